@@ -30,7 +30,7 @@ func Shrink(c Checker, tv TapeVals, id string, opt RunOpt, maxEvals int, maxTime
 		}
 		st.Evals++
 		tp := ReplayTapes(cand)
-		o := c.Run(tp, opt)
+		o := SafeRun(c, tp, opt)
 		if o.HarnessErr != "" || !hasViolation(o, id) {
 			return false
 		}
